@@ -2316,6 +2316,9 @@ class Recipe:
                 if isinstance(solvent, Container):
                     self.used.add(solvent_name)
                     self.results[solvent_name], self.results[dest_name] = results
+                    # the solvent container is the source of this step
+                    step.frm = [solvent, self.results[solvent_name]]
+                    step.objects_used.add(solvent_name)
                 else:
                     self.results[dest_name] = results
                 step.substances_used = self.results[dest_name].get_substances()
